@@ -33,7 +33,7 @@ struct Spec {
     int integ; int nb; std::vector<int> jt;   // joint type per body: 0 pin, 1 ball, 2 free
     bool rod, plane, cspeed, motion; int motionLevel = 0; double g; double amp, rate, phase; double fin = -1; bool sched = false;
     std::vector<double> q0seed;
-    double fixedStep = -1; double acc, ctol; int infNorm, projEvery, allowInterp, projInterp; double dtr, tEnd; std::vector<double> wit;
+    double fixedStep = -1; bool forceNewton = false, fixedStepBlock = false; double acc, ctol; int infNorm, projEvery, allowInterp, projInterp; double dtr, tEnd; std::vector<double> wit;
 };
 struct Model {
     MultibodySystem system; SimbodyMatterSubsystem matter; GeneralForceSubsystem forces;
@@ -95,12 +95,16 @@ struct Worst { double q = 0, quat = 0, u = 0, presc = 0; int n = 0; bool cascade
 
 // one record per returned state
 static void emitState(const Spec& S, const Model& M, const Integrator& I, const State& st, int status, Worst* acc,
-                      const std::string& fam) {
+                      const std::string& fam, bool eventAfter = false) {
     M.system.realize(st, Stage::Velocity);
     const double tol = I.getConstraintToleranceInUse();
     const bool inf = S.infNorm == 1;
-    const bool interp = I.isStateInterpolated();
-    const int must = (interp && S.projInterp == 0) ? 0 : 1;
+    const bool interp = !eventAfter && I.isStateInterpolated();
+    const bool isEvent = status == Integrator::ReachedEventTrigger;
+    // the rule of the property: step states and the states an event handler sees (before-state at tLow, advanced state at
+    // tHigh) must ALWAYS be on the manifold; only interpolated REPORT states are exempt when projection of interpolated
+    // states is off
+    const int must = (interp && !isEvent && S.projInterp == 0) ? 0 : 1;
     const int nQuat = M.matter.getNumQuaternionsInUse(st);
     const Vector& qerr = st.getQErr(); const Vector& qw = st.getQErrWeights();
     const Vector& uerr = st.getUErr(); const Vector& uw = st.getUErrWeights();
@@ -112,7 +116,7 @@ static void emitState(const Spec& S, const Model& M, const Integrator& I, const 
     for (int i = 0; i < nQuat; ++i) L.d(qerr[mHolo + i]);
     L.i(uerr.size());
     for (int i = 0; i < uerr.size(); ++i) L.d(uerr[i]).d(uw[i]);
-    L.s(INTEG_NAMES[S.integ]).i(status).i(interp).s(g_tag);
+    L.s(INTEG_NAMES[S.integ]).i(status).i(interp).s(eventAfter ? "after" : "ret").s(g_tag);
     L.emit();
     // the same norms in floating point
     auto norm = [&](const std::vector<double>& v) { double s2 = 0, m = 0; for (double x : v) { s2 += x * x; m = std::max(m, std::fabs(x)); }
@@ -121,16 +125,21 @@ static void emitState(const Spec& S, const Model& M, const Integrator& I, const 
     for (int i = 0; i < mHolo; ++i) a.push_back(qerr[i] * qw[i]);
     for (int i = 0; i < nQuat; ++i) b.push_back(qerr[mHolo + i]);
     for (int i = 0; i < uerr.size(); ++i) c.push_back(uerr[i] * uw[i]);
-    const char* kind = status == Integrator::ReachedEventTrigger ? "event_before_state" : interp ? "interpolated" : "step";
+    const char* kind = eventAfter ? "event_after_state" : isEvent ? "event_before_state" : interp ? "interpolated" : "step";
     vh::D(std::string(INTEG_NAMES[S.integ]) + "." + kind + (must ? "" : ".exempt"));
     // SemiExplicitEuler has no error control: takeOneStep accepts a trial step even if its projection did not converge (the TODO
     // in takeOneStep, theorem no_error_control_accepts_anything); such sessions get their own class
     const bool nonConv = S.integ == 6 && (I.getNumConvergenceTestFailures() + I.getNumProjectionFailures() > 0);
     const std::string fam2 = nonConv ? std::string("AbstractIntegratorRep.nonConvergedAccepted") : fam;
-    const std::string famk = fam2 + "." + (status == Integrator::ReachedEventTrigger ? "event" : interp ? "interpolated" : "step");
+    // event before-states handed out with projection of interpolated states OFF come from createInterpolatedState, which honours
+    // that option: own class (see notes)
+    const std::string famk = (isEvent && !eventAfter && S.projInterp == 0)
+        ? std::string(S.integ >= 8 ? "CPodes" : "AbstractIntegratorRep") + ".projInterpOff.event"
+        : fam2 + "." + (eventAfter ? "event_after" : isEvent ? "event" : interp ? "interpolated" : "step");
     // classes whose defect hands out an UNPROJECTED state: every later state of the session starts from it, so the violation
     // accumulates without bound; only the states up to and including the first violating one are evaluated (bounded values)
-    const bool unboundedClass = famk == "CPodes.step" || famk == "AbstractIntegratorRep.minStepForced.step"
+    const bool unboundedClass = famk == "CPodes.step" || famk == "CPodes.event_after" || famk == "CPodes.projInterpOff.event"
+                                || famk == "AbstractIntegratorRep.minStepForced.step"
                                 || famk == "AbstractIntegratorRep.nonConvergedAccepted.step";
     const double slack = 1 + 1e-9;
     double rq = norm(a) / tol, rquat = norm(b) / tol, ru = norm(c) / tol;
@@ -141,8 +150,8 @@ static void emitState(const Spec& S, const Model& M, const Integrator& I, const 
         vh::D(famk + ".nonfinite_state");
         if (!std::isfinite(rq)) rq = 1e4; if (!std::isfinite(rquat)) rquat = 1e4; if (!std::isfinite(ru)) ru = 1e4;
     }
-    if (must && acc->cascaded) vh::D(famk + ".after_first_violation");
-    if (must && !acc->cascaded) {
+    if (must && acc->cascaded && unboundedClass) vh::D(famk + ".after_first_violation");
+    if (must && !(acc->cascaded && unboundedClass)) {
         if (unboundedClass && (rq > slack || rquat > slack || ru > slack || !(rq == rq) || !(ru == ru))) acc->cascaded = true;
         acc->q = std::max(acc->q, rq); acc->quat = std::max(acc->quat, rquat); acc->u = std::max(acc->u, ru);
         vh::P("returned_states_satisfy_position_constraints", famk + ".qerr", rq, slack);
@@ -160,7 +169,7 @@ static void emitState(const Spec& S, const Model& M, const Integrator& I, const 
     acc->n++;
 }
 
-static void session(vh::Rng& r, int integ) {
+static void session(vh::Rng& r, int integ, bool optionClass = false) {
     Spec S; S.integ = integ;
     S.nb = 1 + r.below(3);
     for (int i = 0; i < S.nb; ++i) S.jt.push_back(r.below(5) == 0 ? 2 : r.below(2));
@@ -187,6 +196,18 @@ static void session(vh::Rng& r, int integ) {
     S.fixedStep = (r.below(5) == 0 && integ != 6 && integ < 8) ? r.range(0.01, 0.08) : -1;
     S.dtr = r.range(0.01, 0.15); S.tEnd = r.range(0.3, 1.0);
     int nw = r.below(3); for (int i = 0; i < nw; ++i) S.wit.push_back(r.range(0.05, S.tEnd));
+    S.forceNewton = r.below(5) == 0;
+    if (optionClass) {
+        // guaranteed share: the options that change WHICH states get projected, combined with witness-triggered events that must
+        // be localised inside a step, loose accuracy and a tight constraint tolerance
+        S.projInterp = 0;
+        S.acc = std::pow(10.0, -r.range(2.0, 3.2));
+        S.ctol = std::pow(10.0, -r.range(6.0, 8.5));
+        S.wit.clear(); const int k = 2 + r.below(3);
+        for (int i = 0; i < k; ++i) S.wit.push_back(S.tEnd * (i + r.range(0.2, 0.9)) / k);
+        S.projEvery = r.below(2); S.infNorm = r.below(3) == 0; S.forceNewton = r.below(3) == 0; S.allowInterp = 1;
+        S.fixedStepBlock = true;
+    }
     if (r.below(4) == 0) S.fin = r.range(0.5, 1.0) * S.tEnd;
     S.sched = r.below(4) == 0;
     // pass 1: measure the geometry at the chosen configuration so that the constraints are satisfiable there
@@ -213,12 +234,14 @@ static void session(vh::Rng& r, int integ) {
     const bool isCP = S.integ >= 8;
     I.setAccuracy(S.acc);
     if (S.ctol > 0) I.setConstraintTolerance(S.ctol);
+    if (S.fixedStepBlock) S.fixedStep = -1;
     if (S.fixedStep > 0) I.setFixedStepSize(S.fixedStep);
     if (S.fin > 0) I.setFinalTime(S.fin);
     if (S.infNorm) I.setUseInfinityNorm(true);
     if (S.projEvery) I.setProjectEveryStep(true);
     if (S.allowInterp == 0) I.setAllowInterpolation(false);
     if (S.projInterp == 0) I.setProjectInterpolatedStates(false);
+    if (S.forceNewton) I.setForceFullNewton(true);
     if (r.below(4) == 0 && !isCP) I.setReturnEveryInternalStep(true);
     // key classes: CPodes (own stepTo around CPODES dense output); error-controlled integrators run with a user minimum step
     // size (setFixedStepSize) that forces acceptance of inaccurate steps; everything else by integrator name
@@ -233,6 +256,8 @@ static void session(vh::Rng& r, int integ) {
             const double schedT = S.sched ? std::max(I.getAdvancedTime(), std::min(rep, S.tEnd)) + 0.37 * S.dtr : Inf;
             Integrator::SuccessfulStepStatus st = I.stepTo(std::min(rep, S.tEnd), schedT);
             emitState(S, M, I, I.getState(), (int)st, &W, fam);
+            // the state the event handler gets to modify: the advanced state at tHigh
+            if (st == Integrator::ReachedEventTrigger) emitState(S, M, I, I.getAdvancedState(), (int)st, &W, fam, true);
             if (st == Integrator::ReachedReportTime && I.getTime() >= std::min(rep, S.tEnd)) { if (rep >= S.tEnd) break; rep += S.dtr; }
             if (st == Integrator::EndOfSimulation) break;
         }
@@ -244,6 +269,7 @@ static void session(vh::Rng& r, int integ) {
     vh::O("sess").i(1).emit();
     vh::D(std::string(INTEG_NAMES[S.integ]) + (S.fixedStep > 0 ? ".session.fixedStep" : ".session"));
     if (S.motion) vh::D(S.motionLevel ? "class.motion.velocity_level" : "class.motion.position_level");
+    if (optionClass) vh::D("class.projInterpOff_events_tightTol"); if (S.forceNewton) vh::D("class.force_full_newton");
     if (S.fin > 0) vh::D("class.final_time"); if (S.sched) vh::D("class.scheduled_times");
     std::fprintf(stderr, "MAXRATIO %s %.17g %.17g %.17g\n", fam.c_str(), W.q, W.quat, W.u);
 }
@@ -369,7 +395,8 @@ public:
 static void session(vh::Rng& r, int integ /*0..3: RK family with the default attemptDAEStep*/) {
     Ctl ctl; ctl.rng = &r; g = &ctl;
     Sys sys; sys.guts().grav = r.range(2.0, 12.0);
-    const int nw = r.below(3);
+    const int projInterpPre = r.below(2);          // half of the oracle sessions run with projection of interpolated states OFF
+    const int nw = projInterpPre == 0 ? 2 + r.below(2) : r.below(3);
     for (int i = 0; i < nw; ++i) sys.addEventHandler(new TimeWitness(r.range(0.05, 0.8)));
     State state = sys.realizeTopology();
     const double th = r.range(-2.5, 2.5);
@@ -379,7 +406,8 @@ static void session(vh::Rng& r, int integ /*0..3: RK family with the default att
     std::unique_ptr<Integrator> IP(makeInteg(integ, sys));
     Integrator& I = *IP;
     const bool forced = r.below(3) == 0;
-    const int projInterp = r.below(4) == 0 ? 0 : 1;
+    const int projInterp = projInterpPre;
+    if (projInterp == 0) vh::D("class.oracle.projInterpOff_events");
     I.setAccuracy(std::pow(10.0, -r.range(1.0, 5.0)));
     if (r.below(2)) I.setConstraintTolerance(std::pow(10.0, -r.range(3.0, 9.0)));
     if (forced) I.setFixedStepSize(r.range(0.01, 0.2));
@@ -419,13 +447,24 @@ static void session(vh::Rng& r, int integ /*0..3: RK family with the default att
         char prov = 'X';
         if (!exc) {
             prov = 'R';
-            for (const Call& c : okU)
-                if (c.t == st->getTime() && c.q0 == st->getQ()[0] && c.q1 == st->getQ()[1] && c.u0 == st->getU()[0] && c.u1 == st->getU()[1]) prov = 'P';
+            // an interpolated state is projected (if at all) by createInterpolatedState in THIS call; the advanced state may have been
+            // projected in any earlier call (an unprojected interpolation at d=0 reproduces the previous projected state bit for bit)
+            const std::vector<Call>& pool = interp ? ctl.log : okU;
+            for (const Call& c : pool)
+                if (c.kind == 'U' && c.ok && c.t == st->getTime() && c.q0 == st->getQ()[0] && c.q1 == st->getQ()[1] && c.u0 == st->getU()[0] && c.u1 == st->getU()[1]) prov = 'P';
         }
         // structural consistency seen by the harness itself: every Q(ok) is followed by a U of the same kind, every Q(fail) is not
+        // provenance of the ADVANCED state after the call (what an event handler gets / what is propagated)
+        char advProv = 'X';
+        if (!exc) {
+            advProv = 'R';
+            const State& as = I.getAdvancedState();
+            for (const Call& c : okU)
+                if (c.t == as.getTime() && c.q0 == as.getQ()[0] && c.q1 == as.getQ()[1] && c.u0 == as.getU()[0] && c.u1 == as.getU()[1]) advProv = 'P';
+        }
         vh::Line O = vh::O("orc");
         if (exc) O.s("EXC"); else O.i(status);
-        O.s(std::string(1, prov)).i(dConv);
+        O.s(std::string(1, prov)).i(dConv).s(std::string(1, advProv));
         O.emit();
         vh::D(std::string("oracle.") + (exc ? "exception" : interp ? (status == 2 ? "event_before_state" : "interpolated") : nSteps ? "step" : "nostep")
               + (forced ? ".forced" : "") + "." + std::string(1, prov));
@@ -443,7 +482,7 @@ static void runOne(unsigned long long seed, long idx) {
         vh::Rng sub(rng.next());
         if (i < idx) continue;
         g_tag = "seed " + g_mode + " " + std::to_string(seed) + " " + std::to_string(idx);
-        if (g_mode == "oracle") orc::session(sub, (int)(i % 4)); else session(sub, (int)(i % 10));
+        if (g_mode == "oracle") orc::session(sub, (int)(i % 4)); else session(sub, (int)(i % 10), (i / 10) % 3 == 1);
     }
 }
 
